@@ -4,4 +4,7 @@ func init() {
 	register(&Prop{ID: "XMR", Patterns: []string{"./ledger/eval"}, Explanation: "debug: map ranges", Run: func(c *Ctx) {
 		determinismEval(c, "X20.2")
 	}})
+	register(&Prop{ID: "XTA", Patterns: []string{"./data/transactions/logic"}, Explanation: "debug: taint", Run: func(c *Ctx) {
+		ruleBoxContentsImmutable(c, "X19.6")
+	}})
 }
